@@ -20,6 +20,14 @@ BOUNDED = [{"name": "C14 every built-in pass on hand-written models: identity ru
 
 
 def build(eng, tier):
+    _build_infra(eng, tier)
+    # modified=False => nothing changed, for the one pass kernel that is under contract (shared with C05): a kept Identity
+    # node (returned False) has had no field written
+    from . import C05
+    C05.build_identity(eng)
+
+
+def _build_infra(eng, tier):
     schema.opaque_class(eng, "Model")
     eng.declare_class_from_source(PI, "PassResult", fields={"model": TRef("Model"), "modified": BOOL})
     eng.classes["PassResult"].dataclass_fields = ["model", "modified"]
